@@ -14,6 +14,7 @@ import (
 	"encoding/binary"
 	"errors"
 	"fmt"
+	"io"
 	"os"
 	"os/exec"
 	"path/filepath"
@@ -369,6 +370,9 @@ type LibCase struct {
 	File    FileSpec `json:"file"`
 	HashOff int      `json:"hash_offset"` // extra ComputeWebBundleSha512 call at this offset
 	Steps   []Step   `json:"steps"`
+	// Peek: the caller has already read this many octets from the opened file (to sniff the magic,
+	// say) before handing it to the library: the file is the same file wherever its offset stands.
+	Peek int `json:"peek,omitempty"`
 }
 
 func dishonest(s string) bool {
@@ -428,6 +432,12 @@ var libProp = vh.Define("C07", "lib", func(c LibCase, r *vh.R) {
 		panic(err)
 	}
 	defer f.Close()
+	if c.Peek > 0 {
+		if _, err := f.Seek(int64(c.Peek%(len(content)+1)), io.SeekStart); err != nil {
+			panic(err)
+		}
+		r.Class("file-offset-advanced")
+	}
 
 	ib, offset, err := integrityblock.ObtainIntegrityBlock(f)
 	switch c.File.Trailer {
@@ -748,7 +758,7 @@ func genSeed(t *rapid.T, label string) vh.B {
 
 func TestPropLib(t *testing.T) {
 	libProp.Rapid(t, func(t *rapid.T) LibCase {
-		c := LibCase{File: genFile(t, true)}
+		c := LibCase{File: genFile(t, true), Peek: rapid.SampledFrom([]int{0, 0, 0, 1, 8, 64, 1 << 30}).Draw(t, "peek")}
 		if c.File.Trailer != "correct" {
 			return c
 		}
@@ -828,7 +838,6 @@ type cliResult struct {
 	stdout, stderr []byte
 	err            error // spawn problems only
 }
-
 
 // staleOutputs: every second tool invocation finds a LONGER stale file already sitting at its
 // "-o" path (left over from an earlier run): tools must replace it, not overwrite its beginning.
